@@ -153,6 +153,22 @@ Proof.
     destruct ((maxf <=? 0) || (zlen body =? 0)) eqn:Eskip.
     + exists st, b, []. split; [reflexivity|]. split; [apply frags_ok_nil|]. split; [exact Hb|]. split; reflexivity.
     + destruct (h5_flush_ok mtu st b Hb) as (st1 & out1 & Hfl & Hok1 & Hd1 & Hs1). rewrite Hfl.
+      destruct (zlen body <=? maxf) eqn:Eone.
+      { (* the payload would fill one fragment: a single NAL unit packet *)
+        pose proof (zlen_nonneg body) as Hb0.
+        assert (Hlen : 1 <= zlen body <= maxf) by lia.
+        unfold h5_flush. cbn [hb_nalus].
+        destruct (h5_donl_on st1) eqn:Ed1.
+        - eexists. exists (mkH5Buf [] 0). eexists. split; [reflexivity|].
+          split; [apply frags_ok_app; [exact Hok1|]|].
+          + assert (Hds : h5_donl_on st = true) by congruence. unfold maxf in Hlen. rewrite Hds in Hlen.
+            apply frags_ok_one. unfold put16. cbn [app]. rewrite !zlen_cons. lia.
+          + split; [apply buf_ok_empty; exact Hm|]. cbn [h5_donl_on h5_skip_agg]. split; congruence.
+        - exists st1, (mkH5Buf [] 0). eexists. split; [reflexivity|].
+          split; [apply frags_ok_app; [exact Hok1|]|].
+          + assert (Hds : h5_donl_on st = false) by congruence. unfold maxf in Hlen. rewrite Hds in Hlen.
+            apply frags_ok_one. rewrite !zlen_cons. lia.
+          + split; [apply buf_ok_empty; exact Hm|]. split; congruence. }
       destruct (h5_fus_ok (S (length body)) st1 maxf h0 h1 (nh_type (Z.lor (Z.shiftl h0 8) h1)) (zlen body) body
                   ltac:(lia) ltac:(lia)) as (st2 & out2 & Hrun & Hok2 & Hd2 & Hs2).
       rewrite Hrun. exists st2, (mkH5Buf [] 0), (out1 ++ out2). split; [reflexivity|].
